@@ -85,7 +85,8 @@ PROPS = {
                                        CMD + "PropertyId.encode",
                                        (AC + "._send_command_get_responses", r"assign\.Command|noraise"), DEVB + "._send_command#transport"],
             "level": "proof"},
-    "C13": {"targets": ["C13.sum_split.base", "C13.sum_split.step", "C13.single_byte_corruption_is_rejected", "msmart.frame.Frame.validate", "msmart.frame.Frame.checksum", "msmart.crc8.calculate", "crc8.table", "crc8.step_range",
+    "C13": {"targets": ["C13.sum_split.base", "C13.sum_split.step", "C13.single_byte_corruption_is_rejected", "C13.crc_step_injective", "C13.crc_split.base", "C13.crc_split.step", "C13.crc_diverges.base", "C13.crc_diverges.step",
+                        "C13.crc_changes", "C13.fixed_up_substitution.char", "C13.fixed_up_substitution_is_dropped", "msmart.frame.Frame.validate", "msmart.frame.Frame.checksum", "msmart.crc8.calculate", "crc8.table", "crc8.step_range",
                         CMD + "Response.validate", CMD + "Response.construct",
                         AC + "._send_command_get_responses", AC + ".refresh#no_valid_response",
                         AC + "._update_state#other", AC + "._update_state#props"],
